@@ -224,16 +224,6 @@ theorem C02_inverse_single (db : Db) (rank : Name → Nat) (hdag : NameDag db ra
     (by intro n d x h; simp [St.init, aget] at h) hwell hres h1
   exact setup_false_unsets (r.cfg db) fuel2 0 false r.vro r.name none none (St.init s1.env) s2 hwell1 h2
 
-private theorem tableOf_mem (cfg : Cfg) (p : Name) (w : Ver) (a : Act) (h : a ∈ tableOf cfg (p, w)) :
-    ∃ d ∈ cfg.db.decls, d.name = p ∧ ∃ g, (g, a) ∈ d.table := by
-  unfold tableOf at h
-  cases hl : cfg.db.lookup (p, w) with
-  | none => rw [hl] at h; cases h
-  | some d =>
-    rw [hl] at h
-    obtain ⟨hd, hn, _⟩ := lookup_some cfg.db (p, w) d hl
-    exact ⟨d, hd, hn, mem_actions d cfg.exact a h⟩
-
 private theorem reach_rank_le (db : Db) (rank : Name → Nat) (hdag : NameDag db rank) (top : Name) :
     ∀ k n, Within db top k n → rank n ≤ rank top := by
   intro k n hw
@@ -244,13 +234,14 @@ private theorem reach_rank_le (db : Db) (rank : Name → Nat) (hdag : NameDag db
     rw [hn] at this
     omega
 
-/-- chains and diamonds: when no dependency line of the closure carries `-j`, every name of the closure has one declared
-version and `max_depth` is not set, the proviso of `C02_inverse_partial` holds — optional dependencies, failing ones
-included, and any sharing of dependencies (diamonds) are inside the claim.  (`-j` together with a version conflict is
-known finding D33; version conflicts without `-j` and `max_depth` are not covered by this theorem.) -/
-theorem C02_inverse_diamond_partial (db : Db) (rank : Name → Nat) (hdag : NameDag db rank) (hown : OwnTables db)
+/-- chains, diamonds **and version conflicts inside the request**: when no dependency line of the closure carries `-j` and
+`max_depth` is not set, the proviso of `C02_inverse_partial` holds.  Optional dependencies (failing ones included), shared
+dependencies, several declared versions per product and products replaced in the middle of the request are inside the
+claim: replacing a version unwinds it together with everything its table names, so whatever stays set up was asked for by
+a product that is still set up, and unsetup reaches it.  (`-j` is what known finding D33 needs.) -/
+theorem C02_inverse_nojust_partial (db : Db) (rank : Name → Nat) (hdag : NameDag db rank) (hown : OwnTables db)
     (fuel1 fuel2 : Nat) (r : Request) (e0 : Setup.Env) (s1 s2 : St)
-    (hmd : r.maxDepth = none) (hnj : NoJust db (Reach db r.name)) (hone : OneVersion db (Reach db r.name))
+    (hmd : r.maxDepth = none) (hnj : NoJust db (Reach db r.name))
     (hdir : DirOK db e0) (hwell : WellOwned (r.cfg db) e0) (hres : NoResidue Empty e0) (hfresh : Fresh db r e0)
     (h1 : runSetup db fuel1 r e0 = .ok s1) (h2 : runUnsetup db fuel2 r s1.env = .ok s2) : s2.env.approx e0 := by
   refine C02_inverse_partial db rank hdag hown fuel1 fuel2 r e0 s1 s2 hwell hres hfresh h1 h2 ?_
@@ -262,12 +253,10 @@ theorem C02_inverse_diamond_partial (db : Db) (rank : Name → Nat) (hdag : Name
     intro e n d x h; simp [St.init, aget] at h
   -- forward: support and declared records
   have hdecl0 : RecsDeclared cfg.db e0 := fun n v hr => (hdir n v hr).1
-  have hsp0 : setupProd cfg.db e0 r.name = none := by
-    unfold setupProd; rw [hfresh.recs r.name hS0]
   have hsupp0 : Supp cfg S r.name e0 := by
     intro m v hm hr; rw [hfresh.recs m hm] at hr; cases hr
-  obtain ⟨hsupp1, _, hdecl1⟩ := setup_supp cfg rank hdag S r.name hcl hone fuel1 0 false r.vro r.name r.version none
-    (St.init e0) s1 hS0 (Or.inl rfl) (Or.inr hsp0) (ha e0) hdecl0 hsupp0 h1
+  obtain ⟨hsupp1, hdecl1⟩ := setup_supp2 cfg rank hdag S r.name hmd hcl hnj fuel1 0 r.vro r.name r.version none
+    (St.init e0) s1 hS0 (Or.inl rfl) (ha e0) hwell hres hdecl0 hsupp0 h1
   -- unsetup: what loses its record takes its dependencies along
   obtain ⟨_, hwell1⟩ := (setup_recOK cfg rank hdag fuel1).spec true 0 false r.vro r.name r.version none (St.init e0) s1
     (ha e0) hwell hres h1
@@ -311,6 +300,14 @@ theorem C02_inverse_diamond_partial (db : Db) (rank : Name → Nat) (hdag : Name
   intro n hn
   exact key (rank r.name) n hn (by omega)
 
+/-- the special case announced in DESIGN ("chains → diamonds"): closures with one declared version per name -/
+theorem C02_inverse_diamond_partial (db : Db) (rank : Name → Nat) (hdag : NameDag db rank) (hown : OwnTables db)
+    (fuel1 fuel2 : Nat) (r : Request) (e0 : Setup.Env) (s1 s2 : St)
+    (hmd : r.maxDepth = none) (hnj : NoJust db (Reach db r.name)) (_hone : OneVersion db (Reach db r.name))
+    (hdir : DirOK db e0) (hwell : WellOwned (r.cfg db) e0) (hres : NoResidue Empty e0) (hfresh : Fresh db r e0)
+    (h1 : runSetup db fuel1 r e0 = .ok s1) (h2 : runUnsetup db fuel2 r s1.env = .ok s2) : s2.env.approx e0 :=
+  C02_inverse_nojust_partial db rank hdag hown fuel1 fuel2 r e0 s1 s2 hmd hnj hdir hwell hres hfresh h1 h2
+
 /-- the hypotheses are satisfiable and the conclusion is not vacuous: `dbA` with a foreign-only `PATH` -/
 example : OwnTables dbA ∧ NameDag dbA (fun _ => 0) ∧
     Fresh dbA reqA { Setup.Env.empty with paths := [(PATH, [.foreign [47, 117]])] } := by
@@ -351,5 +348,24 @@ example : OwnTables dbDia ∧ NameDag dbDia (fun n => if n = nT then 3 else if n
   ⟨ownTables_of_check _ (by decide +kernel), nameDag_of_check _ _ (by decide +kernel),
    noJust_of_check _ _ (by decide +kernel), oneVersion_of_check _ _ (by decide +kernel),
    by decide +kernel, by decide +kernel⟩
+
+/-- non-vacuity of `C02_inverse_nojust_partial` with a version conflict: `t → a → c 1`, `t → b → c 2` (`c 1` is set up,
+then replaced by `c 2`, in one request); the round trip restores the prior environment -/
+def v2 : Ver := [50]
+def dbConflict : Db :=
+  { decls := [
+      ⟨nT, v1, [1], [(.always, .dep nA false false none none []), (.always, .dep nB false false none none [])]⟩,
+      ⟨nA, v1, [2], [(.always, .prepend PATH [.own [1]] false), (.always, .dep nC false false (some (.explicit v1)) none [])]⟩,
+      ⟨nB, v1, [3], [(.always, .prepend PATH [.own [1]] false), (.always, .dep nC false false (some (.explicit v2)) none [])]⟩,
+      ⟨nC, v1, [4], [(.always, .prepend PATH [.own [1], .own [2]] false)]⟩,
+      ⟨nC, v2, [5], [(.always, .prepend PATH [.own [1]] true)]⟩ ],
+    tags := [(tagCurrent, nT, v1), (tagCurrent, nA, v1), (tagCurrent, nB, v1), (tagCurrent, nC, v1)] }
+
+example : OwnTables dbConflict ∧ NameDag dbConflict (fun n => if n = nT then 3 else if n = nC then 1 else 2) ∧
+    NoJust dbConflict (Reach dbConflict reqT.name) ∧
+    recsAfterSetup dbConflict reqT priorDia = some [(nC, v2), (nB, v1), (nA, v1), (nT, v1)] ∧
+    roundTrip dbConflict reqT priorDia = some ⟨[], [], [(PATH, [.foreign [47, 117]])], []⟩ :=
+  ⟨ownTables_of_check _ (by decide +kernel), nameDag_of_check _ _ (by decide +kernel),
+   noJust_of_check _ _ (by decide +kernel), by decide +kernel, by decide +kernel⟩
 
 end EupsModel.C02
